@@ -43,6 +43,14 @@ C05 += [
     H("c05_str_index_k0", "c05", ["incan_stdlib::strings::str_index"], "empty string; every i64 index",
       "runtime wrapper on the empty string always raises IndexError", raises=True,
       optional_covers={"most negative valid index", "last scalar by positive index"}),
+    H("c05_str_index_k6", "c05", ["incan_stdlib::strings::str_index"], "\"aé€😀b\\n\" (ASCII scalars after multi-byte ones); every i64 index",
+      "runtime wrapper on a string whose ASCII scalars sit at byte offsets different from their scalar index", raises=True),
+    H("c05_str_index_mix", "c05", ["incan_stdlib::strings::str_index"], "\"éa€b\"; every i64 index",
+      "runtime wrapper, ASCII and multi-byte scalars interleaved", raises=True),
+    H("c05_str_char_at_mix", "c05", ["incan_core::strings::str_char_at"], "\"éa€b\"; every i64 index",
+      "core kernel, ASCII and multi-byte scalars interleaved"),
+    H("c05_str_slice_wrapper_mix", "c05", ["incan_stdlib::strings::str_slice", "incan_core::strings::str_slice"],
+      "\"éa€b\"; every Option<i64> triple; push log", "runtime slice wrapper, interleaved scalars", raises=True),
     H("c05_str_slice_wrapper_k4", "c05", ["incan_stdlib::strings::str_slice", "incan_core::strings::str_slice"],
       "\"aé€😀\"; every Option<i64> triple; output String replaced by a push log",
       "runtime wrapper: Python's s[a:b:c]; step 0 raises ValueError through raise()", raises=True),
@@ -145,4 +153,20 @@ C14 = [
 # the editor half of C11 ("rendering it for the editor never fails", ranges well-formed) is the span obligation of C19
 C11 += [h for h in C19 if h.name in ("c19_span_n4", "c19_span_n6")]
 
-PROPS.update({"C19": C19, "C07": C07, "C11": C11, "C14": C14})
+C19.insert(0, H("c19_utf8_validator_matches_std_n4", "c19", ["(harness) valid_utf8 vs core::str::from_utf8"],
+                 "every byte string of <= 4 bytes", "the byte-wise UTF-8 validator the harnesses assume documents by agrees with "
+                 "core::str::from_utf8 (so `assume(valid_utf8)` + from_utf8_unchecked is exactly `from_utf8(..).is_ok()`)",
+                 needs_compiler=True))
+C11.append(C19[0])
+
+# ---- C13 (keyword table kernel) ---------------------------------------------------------------------------------
+C13 = [
+    H(f"c13_keyword_table_len{n}", "c13", ["incan_core::lang::rust_keywords::is_keyword"],
+      f"every identifier-shaped name ([A-Za-z0-9_]) of exactly {n} bytes",
+      "every Rust 2021 strict/reserved keyword that can be a raw identifier (oracle: the Rust Reference lists, typed into the "
+      "harness) is recognised as needing `r#`, and `self`/`Self`/`_` (which cannot be raw) never are",
+      optional_covers=({"a keyword of this length"} if n in () else ()))
+    for n in range(2, 9)
+]
+
+PROPS.update({"C19": C19, "C07": C07, "C11": C11, "C14": C14, "C13": C13})
